@@ -600,7 +600,7 @@ theorem C04_audio {m : Muxer} {h : AbsHist} (hinv : Inv m h)
 /-! ### finish -/
 
 /-- residual hypothesis: the layout stage of `finalize` reports none of its 4 GiB size-limit errors
-    (`mdat` box size / fast-start chunk offset beyond 32 bits) -/
+    (`mdat` box size / chunk offset beyond 32 bits) -/
 def NoSizeLimit (m : Muxer) : Prop :=
   ∀ msg, (layoutOut m.w m.width m.height m.md m.fast).res ≠ .ioErr msg
 
@@ -1240,9 +1240,12 @@ theorem C04_inv_from_build (cfg : Config) (cs : List Call) :
 
 /-! ### the residual hypotheses are satisfiable, and necessary -/
 
-/-- standard layout: the size hypothesis is just "media payload + 8 fits 32 bits" -/
+/-- standard layout: the size hypothesis is just "`ftyp` (24 bytes) + `mdat` header (8 bytes) +
+    media payload fits 32 bits", which excludes both the `mdat` box-size error and the
+    chunk-offset error of the A/V layout -/
 theorem noSizeLimit_standard (m : Muxer) (hfast : m.fast = false)
-    (hp : 8 + ((m.w.vsRev.reverse.map (·.data.length)).sum + (m.w.asRev.reverse.map (·.data.length)).sum) ≤ u32Max) :
+    (hp : ftypLen + 8 + ((m.w.vsRev.reverse.map (·.data.length)).sum +
+      (m.w.asRev.reverse.map (·.data.length)).sum) ≤ u32Max) :
     NoSizeLimit m := by
   intro msg
   unfold layoutOut
